@@ -1,6 +1,6 @@
 (** Extraction of the executable model to OCaml ([ExtrOcamlBasic] only). *)
 From Coq Require Import ExtrOcamlBasic NArith String.
-From DC Require Import Ts Hlc Orswot Actor.
+From DC Require Import Ts Hlc Orswot Actor Cluster.
 Extraction Language OCaml.
 Extraction "model.ml"
   N.add N.mul N.sub N.div N.modulo N.ltb N.leb N.eqb N.of_nat N.to_nat
@@ -9,4 +9,5 @@ Extraction "model.ml"
   send recv hlc_run clock_run
   empty_set insert_ws delete_ws will_apply set_get set_diff set_purge add_raw_tombstones set_merge
   entries_list dead_list before_set view apply_op run_ops
-  actor_step rebuild store_list st_put st_tomb st_remove meta_list gmap_empty_store.
+  actor_step rebuild store_list st_put st_tomb st_remove meta_list gmap_empty_store
+  cstep cinit node exchange_diff live_docs.
